@@ -37,6 +37,12 @@ MECHS = {
     "tls12-id-clientauth": dict(version=(3, 3), cache=True, tickets=False,
                                 suite=CS.TLS_ECDHE_RSA_WITH_AES_128_CBC_SHA,
                                 client_cred="c_rsa", req_cert=True),
+    # a ticket that also carries the client's certificate chain; CBC suite,
+    # so that encrypt-then-MAC is part of what the ticket must preserve
+    "tls12-ticket-clientauth": dict(
+        version=(3, 3), cache=False, tickets=True,
+        suite=CS.TLS_ECDHE_RSA_WITH_AES_128_CBC_SHA,
+        client_cred="c_rsa", req_cert=True),
     "tls13-psk-clientauth": dict(version=(3, 4), cache=False, tickets=True,
                                  suite=CS.TLS_AES_128_GCM_SHA256,
                                  client_cred="c_rsa", req_cert=True),
@@ -186,6 +192,10 @@ def apply_offer(st, offer):
         if alt is None:
             return None, cset, srv, False, False
         cset["cipherNames"] = [alt]
+        # RFC 5246 7.4.1.2: a TLS <= 1.2 ClientHello that asks for
+        # resumption must list the session's suite; one that does not is
+        # inconsistent with the session and may be refused outright
+        inconsistent = not tls13
     elif offer == "held-no-alpn":
         # ALPN is negotiated afresh on every connection
         cset["_alpn"] = None
@@ -266,6 +276,13 @@ def do_connect(st, offer, seed):
                 sc.ckw["serverName"] = v
         else:
             sc.cset[k] = v
+    if sess is not None and st.meta is not None and \
+            "cipherNames" not in cset:
+        # the client keeps offering what it offered when the held session
+        # was made (a session made under an "other suite" offer is later
+        # offered with that suite in the list)
+        sc.cset["cipherNames"] = [
+            S.ALL_INFOS[st.meta["suite"]].setting_cipher()]
     want_alpn = (sc.ckw.get("alpn") or [None])[0] if not \
         (sc.ckw.get("alpn") and b"h2" in sc.ckw["alpn"]) else b"h2"
     st.n_conn += 1
@@ -578,7 +595,7 @@ def run(res, tier, seed):
     depth = 3 if tier == "quick" else 4
     mechs = list(MECHS) if tier == "thorough" else \
         ["tls12-id", "tls12-ticket", "tls12-both", "tls10-id", "tls13-psk",
-         "tls13-psk-clientauth"]
+         "tls12-ticket-clientauth", "tls13-psk-clientauth"]
     items = []
     for m in mechs:
         # every history starts with a fresh full handshake, then the first
